@@ -183,6 +183,8 @@ def run(M, rec, tier, seed, k, n):
             W.closed_loop(M, rec, rng, 6, 300, on_step=on_step)
     finally:
         mon.uninstall()
+    if k == 0:
+        W.repo_tests(rec, [PROP])
 
 
 def finish(M, rec, write=True):
